@@ -156,3 +156,251 @@ Section Read.
         rewrite Z.land_ones by lia. rewrite Z.shiftr_div_pow2 by lia. reflexivity.
   Qed.
 End Read.
+
+(* ------------------------------------------------------------------ writing *)
+
+Definition fmax' (sg : bool) (w : Z) : Z := if sg && (w =? 1) then 1 else fmax sg w.
+Definition acceptb (sg : bool) (w v : Z) : bool := (fmin sg w <=? v) && (v <=? fmax' sg w).
+
+Lemma acceptb_spec sg w v : 1 <= w -> acceptb sg w v = true <-> accepted sg w v.
+Proof.
+  intros Hw. unfold acceptb, accepted, fmax', fmin, fmax.
+  destruct sg; cbn [andb].
+  - destruct (Z.eqb_spec w 1) as [->|N].
+    + change (2 ^ (1 - 1)) with 1. split; intros H; [|destruct H as [H|[_ [_ ->]]]]; lia.
+    + split; intros H; [left; lia|destruct H as [H|[_ [E _]]]; [lia|congruence]].
+  - split; intros H; [left; lia|destruct H as [H|[E _]]; [lia|discriminate]].
+Qed.
+
+Lemma bounds_eq sg w : 1 <= w < 64 -> bf_bounds sg w = Some (fmin sg w, fmax' sg w).
+Proof.
+  intros Hw. unfold bf_bounds, fmin, fmax', fmax.
+  pose proof (pow2_lt (w - 1) 63 ltac:(lia)) as Ph. pose proof (pow2_pos (w - 1) ltac:(lia)) as Ph0.
+  pose proof (pow2_lt w 64 ltac:(lia)) as Pw. pose proof (pow2_le w 63 ltac:(lia)) as Pw63.
+  pose proof (pow2_pos w ltac:(lia)) as Pw0.
+  destruct sg; cbn [andb].
+  - unfold shl_s64, count_ok. rewrite Z.mul_1_l.
+    destruct ((0 <=? w - 1) && (w - 1 <? 64) && (0 <=? 1) && (2 ^ (w - 1) <? 2 ^ 63)) eqn:E; [|exfalso; lia].
+    unfold arith_s64.
+    destruct ((- 2 ^ 63 <=? - 2 ^ (w - 1)) && (- 2 ^ (w - 1) <? 2 ^ 63)) eqn:E1; [|exfalso; lia].
+    destruct ((- 2 ^ 63 <=? 2 ^ (w - 1) - 1) && (2 ^ (w - 1) - 1 <? 2 ^ 63)) eqn:E2; [|exfalso; lia].
+    f_equal. f_equal.
+    destruct (Z.eqb_spec w 1) as [->|N].
+    + reflexivity.
+    + assert (2 <= 2 ^ (w - 1)).
+      { change 2 with (2 ^ 1) at 1. apply pow2_le. lia. }
+      destruct (Z.eqb_spec (2 ^ (w - 1) - 1) 0); [lia|reflexivity].
+  - unfold shl_u64, count_ok. rewrite Z.mul_1_l.
+    destruct ((0 <=? w) && (w <? 64)) eqn:E; [|exfalso; lia].
+    f_equal. f_equal. unfold u64, s64.
+    rewrite (Z.mod_small (2 ^ w)) by lia. rewrite (Z.mod_small (2 ^ w - 1)) by lia.
+    rewrite Z.mod_small by lia. lia.
+Qed.
+
+Lemma small_of_high_bits a n : 0 <= a -> 0 <= n ->
+  (forall i, n <= i -> Z.testbit a i = false) -> 0 <= a < 2 ^ n.
+Proof.
+  intros Ha Hn H. assert (a mod 2 ^ n = a) as E.
+  { apply Z.bits_inj'. intros i Hi. destruct (Z.ltb_spec i n).
+    - apply Z.mod_pow2_bits_low. lia.
+    - rewrite Z.mod_pow2_bits_high by lia. symmetry. apply H. lia. }
+  rewrite <- E. apply Z.mod_pos_bound. apply pow2_pos. lia.
+Qed.
+
+Lemma high_bits_of_small a n i : 0 <= a < 2 ^ n -> 0 <= n <= i -> Z.testbit a i = false.
+Proof.
+  intros Ha Hi. rewrite <- (Z.mod_small a (2 ^ n)) by lia. apply Z.mod_pow2_bits_high. lia.
+Qed.
+
+Lemma testbit_rawmask w sh i : 0 <= w -> 0 <= sh -> 0 <= i ->
+  Z.testbit (Z.ones w * 2 ^ sh) i = (sh <=? i) && (i <? sh + w).
+Proof.
+  intros Hw Hsh Hi. rewrite <- Z.shiftl_mul_pow2 by lia. rewrite Z.shiftl_spec by lia.
+  destruct (Z.leb_spec sh i).
+  - rewrite Z.testbit_ones_nonneg by lia. cbn [andb].
+    destruct (Z.ltb_spec (i - sh) w), (Z.ltb_spec i (sh + w)); try lia; reflexivity.
+  - rewrite Z.testbit_neg_r by lia. reflexivity.
+Qed.
+
+Section Write.
+  Variables (T : ity) (w sh v : Z) (data : list Z).
+  Hypothesis P : placement T w sh.
+  Hypothesis U : unit_ok T data.
+
+  Let B := 8 * Z.of_nat (isize T).
+  Let u := read_raw_unsigned data.
+
+  Definition in_field (i : Z) : bool := (sh <=? i) && (i <? sh + w).
+
+  (* the write, completely: rejected writes are pure; accepted ones produce a unit whose bits are
+     v's low bits inside the field and the old bits outside *)
+  Theorem write_exact :
+    if acceptb (isigned T) w v then
+      exists data', bf_write T w sh v data = (BOk tt, data') /\ unit_ok T data' /\
+        forall i, 0 <= i ->
+          Z.testbit (read_raw_unsigned data') i = if in_field i then Z.testbit v (i - sh) else Z.testbit u i
+    else bf_write T w sh v data = (BErr OverflowError, data).
+  Proof.
+    pose proof (u_range T data U) as Hu.
+    assert (8 <= B <= 64) as HB by (destruct P; unfold B; lia).
+    fold B in Hu. fold u in Hu.
+    destruct P as [Hs Hw Hsh Hfit Hbool]. fold B in Hfit.
+    unfold bf_write. destruct (Z.leb_spec 64 w) as [W64|W64].
+    - (* full width: convert_from_object *)
+      assert (B = 64) as B64 by lia. assert (w = 64) as Ew by lia. assert (sh = 0) as Esh by lia.
+      rewrite B64 in Hu.
+      assert (isize T = 8%nat) as S8 by (unfold B in B64; lia).
+      assert (ibool T = false) as Nb.
+      { destruct (ibool T) eqn:Eb; [|reflexivity]. destruct (Hbool eq_refl) as [E1 _]. lia. }
+      assert (wf_ity T) as Wf by (split; [lia|intros E; congruence]).
+      rewrite store_exact by exact Wf.
+      assert (in_range T v = acceptb (isigned T) w v) as ->.
+      { unfold in_range, acceptb, fmin, fmax', fmax, tbits. rewrite Nb, S8, Ew.
+        destruct (isigned T); cbn [andb Z.eqb]; reflexivity. }
+      destruct (acceptb (isigned T) w v) eqn:A; cbn [lift_res]; [|reflexivity].
+      exists (encode_int T v). split; [reflexivity|]. unfold encode_int. rewrite S8. split.
+      + split; [rewrite write_raw_length; congruence|]. unfold write_raw. apply encode_le_bytes.
+      + intros i Hi. rewrite read_unsigned_write by lia. change (8 * Z.of_nat 8) with 64.
+        unfold in_field. rewrite Ew, Esh. rewrite Z.sub_0_r.
+        destruct (Z.ltb_spec i 64).
+        * rewrite Z.mod_pow2_bits_low by lia.
+          replace ((0 <=? i) && (i <? 0 + 64)) with true by lia. reflexivity.
+        * rewrite Z.mod_pow2_bits_high by lia.
+          replace ((0 <=? i) && (i <? 0 + 64)) with false by lia.
+          symmetry. apply high_bits_of_small with (n := 64); lia.
+    - pose proof (pow2_lt w 64 ltac:(lia)) as Pw. pose proof (pow2_le w 63 ltac:(lia)) as Pw63.
+      pose proof (pow2_pos w ltac:(lia)) as Pw0.
+      pose proof (pow2_lt (w - 1) 63 ltac:(lia)) as Ph. pose proof (pow2_pos (w - 1) ltac:(lia)) as Ph0.
+      pose proof (pow2_double w ltac:(lia)) as Dw.
+      rewrite bounds_eq by lia.
+      unfold as_longlong.
+      destruct ((- 2 ^ 63 <=? v) && (v <? 2 ^ 63)) eqn:LL.
+      2:{ (* beyond long long: OverflowError from PyLong_AsLongLong, and v is certainly out of range *)
+          assert (acceptb (isigned T) w v = false) as ->; [|reflexivity].
+          unfold acceptb, fmin, fmax', fmax. destruct (isigned T); cbn [andb].
+          - destruct (w =? 1); lia.
+          - lia. }
+      fold (acceptb (isigned T) w v).
+      assert (((v <? fmin (isigned T) w) || (fmax' (isigned T) w <? v)) = negb (acceptb (isigned T) w v)) as ->.
+      { unfold acceptb. lia. }
+      destruct (acceptb (isigned T) w v) eqn:A; cbn [negb]; [|reflexivity].
+      assert (count_ok w = true) as Cw by (unfold count_ok; lia).
+      assert (count_ok sh = true) as Csh by (unfold count_ok; lia).
+      unfold shl_u64. rewrite Cw, Csh. rewrite Z.mul_1_l.
+      assert (u64 (2 ^ w) = 2 ^ w) as -> by (unfold u64; apply Z.mod_small; lia).
+      assert (u64 (2 ^ w - 1) = Z.ones w) as -> by (unfold u64; rewrite Z.ones_equiv; apply Z.mod_small; lia).
+      pose proof (pow2_le (sh + w) 64 ltac:(lia)) as Psw. pose proof (pow2_pos sh ltac:(lia)) as Psh.
+      assert (0 <= Z.ones w * 2 ^ sh < 2 ^ 64) as Rm.
+      { rewrite Z.ones_equiv. rewrite Z.pow_add_r in Psw by lia. nia. }
+      assert (u64 (Z.ones w * 2 ^ sh) = Z.ones w * 2 ^ sh) as -> by (unfold u64; apply Z.mod_small; lia).
+      set (rawmask := Z.ones w * 2 ^ sh) in *.
+      set (rawvalue := u64 (u64 v * 2 ^ sh)).
+      set (raw' := Z.lor (Z.land (read_raw_unsigned data) (u64 (Z.lnot rawmask))) (Z.land rawvalue rawmask)).
+      fold u in raw'.
+      (* bits of the new unit *)
+      assert (forall i, 0 <= i -> Z.testbit raw' i = if in_field i then Z.testbit v (i - sh) else Z.testbit u i) as Bits.
+      { intros i Hi. unfold raw'. rewrite Z.lor_spec, !Z.land_spec.
+        unfold rawmask at 2. rewrite testbit_rawmask by lia. fold (in_field i).
+        destruct (in_field i) eqn:F.
+        - unfold in_field in F. rewrite andb_true_r.
+          assert (Z.testbit (u64 (Z.lnot rawmask)) i = false) as ->.
+          { unfold u64. rewrite Z.mod_pow2_bits_low by lia. rewrite Z.lnot_spec by lia.
+            unfold rawmask. rewrite testbit_rawmask by lia. rewrite F. reflexivity. }
+          rewrite andb_false_r. cbn [orb].
+          unfold rawvalue, u64. rewrite Z.mod_pow2_bits_low by lia.
+          rewrite Z.mul_pow2_bits by lia. apply Z.mod_pow2_bits_low. lia.
+        - rewrite andb_false_r, orb_false_r.
+          destruct (Z.ltb_spec i 64).
+          + unfold u64. rewrite Z.mod_pow2_bits_low by lia. rewrite Z.lnot_spec by lia.
+            unfold rawmask. rewrite testbit_rawmask by lia. fold (in_field i). rewrite F.
+            cbn [negb]. apply andb_true_r.
+          + rewrite (high_bits_of_small u B i) by lia. reflexivity. }
+      assert (0 <= raw' < 2 ^ B) as Rr.
+      { apply small_of_high_bits; try lia.
+        - unfold raw'. apply Z.lor_nonneg. split; apply Z.land_nonneg; left; [lia|].
+          unfold rawvalue, u64. apply Z.mod_pos_bound. lia.
+        - intros i Hi. rewrite Bits by lia.
+          assert (in_field i = false) as -> by (unfold in_field; lia).
+          apply high_bits_of_small with (n := B); lia. }
+      exists (write_raw (isize T) raw'). split; [reflexivity|]. split.
+      + split; [apply write_raw_length|]. unfold write_raw. apply encode_le_bytes.
+      + intros i Hi. rewrite read_unsigned_write by lia. fold B. rewrite Z.mod_small by lia. apply Bits. exact Hi.
+  Qed.
+End Write.
+
+(* ------------------------------------------------------------------ the property, piece by piece *)
+
+Theorem no_ub T w sh v data : placement T w sh -> unit_ok T data ->
+  fst (bf_write T w sh v data) <> BUB /\ bf_read T w sh data <> BUB.
+Proof.
+  intros P U. split.
+  - pose proof (write_exact T w sh v data P U) as H.
+    destruct (acceptb (isigned T) w v).
+    + destruct H as [d' [E _]]. rewrite E. discriminate.
+    + rewrite H. discriminate.
+  - rewrite (read_like_C T w sh data P U). discriminate.
+Qed.
+
+Theorem accept_iff T w sh v data : placement T w sh -> unit_ok T data ->
+  (exists data', bf_write T w sh v data = (BOk tt, data')) <-> accepted (isigned T) w v.
+Proof.
+  intros P U. rewrite <- acceptb_spec by (destruct P; assumption).
+  pose proof (write_exact T w sh v data P U) as H.
+  destruct (acceptb (isigned T) w v).
+  - split; [reflexivity|]. intros _. destruct H as [d' [E _]]. exists d'. exact E.
+  - split; [|discriminate]. intros [d' E]. rewrite H in E. discriminate.
+Qed.
+
+Theorem reject_pure T w sh v data : placement T w sh -> unit_ok T data ->
+  ~ accepted (isigned T) w v -> bf_write T w sh v data = (BErr OverflowError, data).
+Proof.
+  intros P U N. rewrite <- acceptb_spec in N by (destruct P; assumption).
+  pose proof (write_exact T w sh v data P U) as H.
+  destruct (acceptb (isigned T) w v); [exfalso; apply N; reflexivity|exact H].
+Qed.
+
+Theorem isolated T w sh v data data' : placement T w sh -> unit_ok T data ->
+  bf_write T w sh v data = (BOk tt, data') ->
+  unit_ok T data' /\
+  forall i, 0 <= i -> ~ (sh <= i < sh + w) ->
+    Z.testbit (read_raw_unsigned data') i = Z.testbit (read_raw_unsigned data) i.
+Proof.
+  intros P U E. pose proof (write_exact T w sh v data P U) as H.
+  destruct (acceptb (isigned T) w v).
+  - destruct H as [d' [E' [U' Bits]]]. rewrite E in E'. injection E' as <-.
+    split; [exact U'|]. intros i Hi Out. rewrite Bits by exact Hi.
+    assert (in_field w sh i = false) as -> by (unfold in_field; lia). reflexivity.
+  - rewrite H in E. discriminate.
+Qed.
+
+Theorem roundtrip T w sh v data data' : placement T w sh -> unit_ok T data ->
+  bf_write T w sh v data = (BOk tt, data') ->
+  bf_read T w sh data' = BOk (if isigned T && (w =? 1) && (v =? 1) then -1 else v).
+Proof.
+  intros P U E. pose proof (write_exact T w sh v data P U) as H.
+  destruct (acceptb (isigned T) w v) eqn:A; [|rewrite H in E; discriminate].
+  destruct H as [d' [E' [U' Bits]]]. rewrite E in E'. injection E' as <-.
+  rewrite (read_like_C T w sh data' P U'). f_equal.
+  assert (1 <= w /\ 0 <= sh) as [Hw Hsh] by (destruct P; split; assumption).
+  assert (field_bits w sh (read_raw_unsigned data') = v mod 2 ^ w) as F.
+  { apply Z.bits_inj'. intros i Hi. rewrite testbit_field by lia.
+    destruct (Z.ltb_spec i w).
+    - rewrite Z.mod_pow2_bits_low by lia. cbn [andb]. rewrite Bits by lia.
+      assert (in_field w sh (i + sh) = true) as -> by (unfold in_field; lia). f_equal. lia.
+    - rewrite Z.mod_pow2_bits_high by lia. reflexivity. }
+  unfold c_bitfield_value. rewrite F. clear F Bits.
+  pose proof (pow2_pos w ltac:(lia)) as Pw0. pose proof (pow2_pos (w - 1) ltac:(lia)) as Ph0.
+  pose proof (pow2_double w ltac:(lia)) as Dw.
+  unfold acceptb, fmin, fmax', fmax in A.
+  destruct (isigned T); cbn [andb] in *.
+  - destruct (Z.eqb_spec w 1) as [->|N].
+    + change (2 ^ (1 - 1)) with 1 in *. change (2 ^ 1) with 2 in *.
+      assert (v = -1 \/ v = 0 \/ v = 1) as [-> | [-> | ->]] by lia; reflexivity.
+    + cbn [andb].
+      destruct (Z.leb_spec 0 v).
+      * rewrite Z.mod_small by lia. destruct (Z.leb_spec (2 ^ (w - 1)) v); lia.
+      * assert (v mod 2 ^ w = v + 2 ^ w) as ->.
+        { symmetry. apply Z.mod_unique with (q := -1); lia. }
+        destruct (Z.leb_spec (2 ^ (w - 1)) (v + 2 ^ w)); lia.
+  - apply Z.mod_small. lia.
+Qed.
